@@ -19,6 +19,26 @@ func (s Edge) Pick(direction graph.Direction) uint64 {
 	return s.Start
 }
 
+// PickFrom returns the node this edge leads to when it is followed from the given node in the given direction. For
+// graph.DirectionBoth the edge is incident to the node on either side, so the far endpoint is the one that is not the
+// node itself (a self loop leads back to the node).
+func (s Edge) PickFrom(node uint64, direction graph.Direction) uint64 {
+	switch direction {
+	case graph.DirectionOutbound:
+		return s.End
+
+	case graph.DirectionInbound:
+		return s.Start
+
+	default:
+		if s.Start == node {
+			return s.End
+		}
+
+		return s.Start
+	}
+}
+
 type Triplestore interface {
 	DirectedGraph
 
@@ -164,8 +184,7 @@ func (s *triplestore) adjacent(node uint64, direction graph.Direction) cardinali
 				nodes.Add(edge.Start)
 
 			default:
-				nodes.Add(edge.End)
-				nodes.Add(edge.Start)
+				nodes.Add(edge.PickFrom(node, direction))
 			}
 		}
 
@@ -291,6 +310,6 @@ func (s *triplestoreProjection) EachAdjacentEdge(node uint64, direction graph.Di
 
 func (s *triplestoreProjection) EachAdjacentNode(node uint64, direction graph.Direction, delegate func(adjacent uint64) bool) {
 	s.EachAdjacentEdge(node, direction, func(next Edge) bool {
-		return delegate(next.Pick(direction))
+		return delegate(next.PickFrom(node, direction))
 	})
 }
